@@ -233,7 +233,7 @@ def single_writer(rep, prog, cfg, res):
 
 def split_rule(rep, prog, cfg):
     rule = "C01.split"
-    b = logic_body(prog, "mpd_client::client::Client::raw_command_list", {"alloc::vec::Vec::push"})
+    b = logic_body(prog, "mpd_client::client::Client::raw_command_list", {"mpd_client::client::Client::do_send"})
     if b is None:
         rep.fail(rule + ".anchor", cfg + "/raw_command_list", "client/mod.rs", "public anchor Client::raw_command_list (accumulating frames) not found")
     else:
@@ -267,7 +267,7 @@ def split_rule(rep, prog, cfg):
             l2, _ = fl.sources([op_local(t["args"][1])], through_call=identity_through, follow_mut=False)
             if any(x[0] == "call" and x[1] in nexts for x in l2):
                 pushed_ok = True
-        rep.check(acc is not None and ok_frames and err_frames and err_error and pushed_ok and len(nexts) == 1, rule, cfg + "/raw_command_list", b.loc(b.span),
+        rep.check(acc is not None and ok_frames and err_frames and err_error and pushed_ok and len(nexts) == 1 and len(pushes) == 1, rule, cfg + "/raw_command_list", b.loc(b.span),
                   "the list reply is not split into (frames accumulated from the iteration's Ok items, in order) and (the iteration's Err item): "
                   "ok<-acc=%s err.frames<-acc=%s err.error<-item=%s pushed<-item=%s" % (ok_frames, err_frames, err_error, pushed_ok))
         names = set()
